@@ -85,6 +85,10 @@ func expandCond(c ssa.Value, pol bool, iff *ssa.If, seen map[*ssa.Phi]bool) []Gu
 		if k, ok := e.(*ssa.Const); ok && k.Value != nil && k.Value.Kind() == constant.Bool && constant.BoolVal(k.Value) != pol {
 			continue
 		}
+		// (on a pruned view the ways in that the assumptions rule out do not count)
+		if curView != nil && !curView.edgeLive(phi.Block().Preds[i], phi.Block()) {
+			continue
+		}
 		other, otherPred = e, phi.Block().Preds[i]
 		n++
 	}
@@ -345,6 +349,9 @@ func (c *PrunedCFG) Guards(b *ssa.BasicBlock) []Guard {
 		return nil
 	}
 	seenPhi := map[*ssa.Phi]bool{}
+	old := curView
+	curView = c
+	defer func() { curView = old }()
 	for s := b; ; {
 		var fwd *ssa.BasicBlock
 		n := 0
@@ -369,6 +376,24 @@ func (c *PrunedCFG) Guards(b *ssa.BasicBlock) []Guard {
 	return out
 }
 
+// curView is the pruned view whose guards are being computed (nil: the whole graph).
+var curView *PrunedCFG
+
+// EdgeLive reports whether the view keeps an edge from a live block from to to.
+func (c *PrunedCFG) EdgeLive(from, to *ssa.BasicBlock) bool { return c.edgeLive(from, to) }
+
+func (c *PrunedCFG) edgeLive(from, to *ssa.BasicBlock) bool {
+	if !c.live[from] {
+		return false
+	}
+	for i, s := range from.Succs {
+		if s == to && c.keep(from, i) {
+			return true
+		}
+	}
+	return false
+}
+
 // ReachableFrom returns the blocks reachable from b over kept edges.
 func (c *PrunedCFG) ReachableFrom(b *ssa.BasicBlock) map[*ssa.BasicBlock]bool {
 	seen := map[*ssa.BasicBlock]bool{}
@@ -388,6 +413,26 @@ func (c *PrunedCFG) ReachableFrom(b *ssa.BasicBlock) map[*ssa.BasicBlock]bool {
 	return seen
 }
 
+// ReachableAvoiding returns the blocks reachable from b over kept edges
+// without entering a block of avoid (b itself is entered whatever it is).
+func (c *PrunedCFG) ReachableAvoiding(b *ssa.BasicBlock, avoid map[*ssa.BasicBlock]bool) map[*ssa.BasicBlock]bool {
+	seen := map[*ssa.BasicBlock]bool{}
+	var walk func(x *ssa.BasicBlock, first bool)
+	walk = func(x *ssa.BasicBlock, first bool) {
+		if seen[x] || (!first && avoid[x]) {
+			return
+		}
+		seen[x] = true
+		for i, s := range x.Succs {
+			if c.keep(x, i) {
+				walk(s, false)
+			}
+		}
+	}
+	walk(b, true)
+	return seen
+}
+
 // expandNilTest: a test "φ == nil" / "φ != nil" with a known outcome rules
 // out the edges of φ whose value is known to be of the other kind (a constant
 // nil, a sentinel error variable, a freshly made interface value, or a value
@@ -397,6 +442,8 @@ func (c *PrunedCFG) ReachableFrom(b *ssa.BasicBlock) map[*ssa.BasicBlock]bool {
 //	if err == nil && n != sz { err = io.ErrShortWrite }
 //	if err != nil { return }        // here: err == nil came in through the edge
 //	                                // on which n == sz held
+var nilActive = map[*ssa.Phi]bool{}
+
 func expandNilTest(bo *ssa.BinOp, pol bool, seen map[*ssa.Phi]bool) []Guard {
 	var phi *ssa.Phi
 	var other ssa.Value
@@ -410,6 +457,13 @@ func expandNilTest(bo *ssa.BinOp, pol bool, seen map[*ssa.Phi]bool) []Guard {
 		return nil
 	}
 	seen[phi] = true
+	// (a φ at a loop head whose test guards the way round: the guards of its
+	// edges ask for this very expansion again)
+	if nilActive[phi] {
+		return nil
+	}
+	nilActive[phi] = true
+	defer delete(nilActive, phi)
 	wantNil := (bo.Op == token.EQL) == pol
 	var feasible [][]Guard
 	for i, e := range phi.Edges {
